@@ -82,3 +82,58 @@ Definition c04_stamp (P : nat) (r : nat * nat) : nat :=
   3 * fst r + (if Nat.even (snd r) then (if (snd r =? P - 1) && Nat.odd P then 1 else 0) else 2).
 Fixpoint c04_increasing (l : list nat) : Prop :=
   match l with a :: (b :: _) as t => a < b /\ c04_increasing t | _ => True end.
+
+(* ---- object histories: what the object must hold, stated WITHOUT sequence numbers -------------------------- *)
+(* "rebuild rebuilds iff first build (for these index sets / after free()), publicity mode changed, or an index set
+   has been resized since"; a rebuild that takes place builds the CURRENT content of the targeted sets with the
+   CURRENT includeSelf and hints. *)
+Section ObjSpec.
+  Variable result : Type.
+  Variable buildf : c04_decomp -> bool -> bool -> list (list nat) -> result.
+
+  Record c04_hspec := C04_mkhspec {
+    c04_hs_two : bool; c04_hs_P : nat;
+    c04_hs_contents : list c04_decomp;          (* current content of every pair of index sets *)
+    c04_hs_slot : option nat;
+    c04_hs_hints : list (list nat);
+    c04_hs_incself : bool;
+    c04_hs_built : option bool;                 (* Some ign: built for the targeted sets in publicity mode ign, not freed since *)
+    c04_hs_stale : bool;                        (* a targeted set was resized since that build *)
+    c04_hs_map : option result }.
+
+  Definition c04_hspec_step (h : c04_hspec) (op : c04_hop) : c04_hspec :=
+    match op with
+    | C04_HSetIndexSets s hi =>
+        C04_mkhspec (c04_hs_two h) (c04_hs_P h) (c04_hs_contents h) (Some s)
+                    (match hi with Some l => map c04_set_of l | None => repeat [] (c04_hs_P h) end)
+                    (c04_hs_incself h) None false None
+    | C04_HSetNeighbours l =>
+        C04_mkhspec (c04_hs_two h) (c04_hs_P h) (c04_hs_contents h) (c04_hs_slot h) (map c04_set_of l)
+                    (c04_hs_incself h) (c04_hs_built h) (c04_hs_stale h) (c04_hs_map h)
+    | C04_HSetIncludeSelf b =>
+        C04_mkhspec (c04_hs_two h) (c04_hs_P h) (c04_hs_contents h) (c04_hs_slot h) (c04_hs_hints h)
+                    b (c04_hs_built h) (c04_hs_stale h) (c04_hs_map h)
+    | C04_HFree =>
+        C04_mkhspec (c04_hs_two h) (c04_hs_P h) (c04_hs_contents h) (c04_hs_slot h) (c04_hs_hints h)
+                    (c04_hs_incself h) None false None
+    | C04_HRebuild ign =>
+        match c04_hs_slot h with
+        | None => h
+        | Some s =>
+            if match c04_hs_built h with None => true | Some ig => negb (Bool.eqb ign ig) || c04_hs_stale h end then
+              let early := (c04_hs_P h =? 1) && negb (c04_hs_two h || c04_hs_incself h) in
+              let hints' := if early then c04_hs_hints h else c04_erase_self (c04_hs_hints h) in
+              C04_mkhspec (c04_hs_two h) (c04_hs_P h) (c04_hs_contents h) (Some s) hints' (c04_hs_incself h) (Some ign) false
+                          (Some (buildf (nth s (c04_hs_contents h) []) ign (c04_hs_incself h) hints'))
+            else h
+        end
+    | C04_HResize s ws wd d =>
+        C04_mkhspec (c04_hs_two h) (c04_hs_P h)
+                    (c04_upd s (fun c => c04_merge_content ws wd c d) (c04_hs_contents h))
+                    (c04_hs_slot h) (c04_hs_hints h) (c04_hs_incself h) (c04_hs_built h)
+                    (c04_hs_stale h || (match c04_hs_slot h with Some s' => s' =? s | None => false end) && (ws || wd))
+                    (c04_hs_map h)
+    end.
+
+  Definition c04_hspec_run (h : c04_hspec) (ops : list c04_hop) : c04_hspec := fold_left c04_hspec_step ops h.
+End ObjSpec.
